@@ -33,12 +33,13 @@ from __future__ import annotations
 import ast
 from typing import Dict, List, Optional, Set, Tuple
 
+from engines import c06c14sql as sq
 from engines import c14facts as cf
 from engines import pyfacts as pf
 from engines import sqlfront as sf
 from engines import sqlrules as sr
 from engines.common import AnalysisError, Ctx
-from engines.sqlast import N, text
+from engines.sqlast import N, Parser, SqlParseError, text
 
 META = dict(
     category='other',
@@ -170,10 +171,25 @@ def routes_of(m: pf.Module) -> List[Tuple[pf.FuncDef, List[Tuple[str, str]], Lis
     return out
 
 
+_ALIASES: Dict[str, str] = {}
+
+
+def _decorator_aliases(m: pf.Module) -> None:
+    """`users_only = auth.authenticated_users_only()` / `members_only = billing_project_users_only()` at module level: the alias
+    stands for the decorator it is bound to."""
+    for name, v in sq.module_constants(m).items():
+        if v is None:
+            continue
+        d = pf.dotted(v.func) if isinstance(v, ast.Call) else pf.dotted(v)
+        if d is not None and (d in LEVELS or d in NEUTRAL) and name not in LEVELS and name not in NEUTRAL:
+            _ALIASES[name] = d
+
+
 def level_of(decos: List[str]) -> Tuple[Optional[str], List[str]]:
     lv = None
     unknown = []
     for d in decos:
+        d = _ALIASES.get(d, d)
         if d in LEVELS:
             rank = ['user', 'member', 'dev-or-auth', 'developer']
             if lv is None or rank.index(LEVELS[d]) > rank.index(lv):
@@ -184,79 +200,424 @@ def level_of(decos: List[str]) -> Tuple[Optional[str], List[str]]:
 
 
 # ------------------------------------------------------------------------------------------------
+OWNER_TABLES = ('batches', 'job_groups')
+
+
+class Cand:
+    """An embedded SELECT that filters on the `user` column of batches / job_groups: a candidate owner filter."""
+
+    def __init__(self, node: Optional[pf.Node], emb, status: str, reason: str):
+        self.node = node
+        self.emb = emb
+        self.status = status  # 'valid' | 'invalid' (a recognised shape that does not establish ownership) | 'unknown' (not analysable)
+        self.reason = reason
+        self.forward: List[Tuple[pf.FuncDef, str, str]] = []  # (function, parameter, 'user' | 'userdata') the caller's name is received through
+
+
 class OwnerAnalysis:
-    def __init__(self, ctx: Ctx, m: pf.Module):
+    """Owner filter = a single SELECT over batches / job_groups whose WHERE clause (or an inner join's ON clause) equates the `user`
+    column of such a table with a bound parameter that denotes the authenticated caller, whose batch key (batches.id / <t>.batch_id,
+    possibly of a table joined on the batch key: union-find over the equalities) is equated with a bound parameter that traces back
+    to the path's {batch_id}, and whose EMPTY result stops the function: under `row is None / falsy` no database write and no normal
+    return is reachable from the statement (branch conditions on the row evaluated three-valued; a module helper that raises for a
+    falsy argument counts; re-assignment of the row variable ends the knowledge).  Table aliases, operand order, conjunct order, the
+    order of the argument tuple, where the text lives (literal / constant) and how the rejection is spelt do not matter.
+    A statement that looks like an owner filter but cannot be analysed makes the route DECLINE instead of alarm."""
+
+    def __init__(self, ctx: Ctx, m: pf.Module, handlers: Dict[int, str], handler_params: Dict[int, Dict[str, str]]):
         self.ctx = ctx
         self.m = m
         self.embs = sf.embedded_in(m)
         self.names = cf.PathFlow(m)
+        self.fns = [f for _, f in m.functions()]
+        self.handlers = handlers  # id(route handler) -> name of its userdata parameter
+        self.handler_params = handler_params
         self.memo: Dict[int, bool] = {}
         self.has_writes_memo: Dict[int, bool] = {}
+        self.cand_memo: Dict[int, List[Cand]] = {}
+        self.rej_memo: Dict[Tuple[int, str], bool] = {}
+        self.trace_memo: Dict[Tuple[int, str], set] = {}
+        prog = sf.load_program()
+        self.schema: Dict[str, Set[str]] = {k.lower(): {c.lower() for c in v} for k, v in prog.tables.items()}
+        self.forwarded: Dict[Tuple[int, str], Tuple[pf.FuncDef, str, str]] = {}
 
     def resolve(self, fn: pf.FuncDef, call: ast.Call) -> Optional[pf.FuncDef]:
         # nested def in fn or an enclosing function, else module level (indexed once per module)
         return self.names.resolve(fn, call)
 
-    def caller_user_expr(self, fn: pf.FuncDef, e: ast.expr) -> bool:
-        """Does e denote the authenticated caller's username?"""
-        s = pf.nsrc(e)
-        if s == "userdata['username']":
-            return True
+    # ---- where a value comes from -------------------------------------------------------------------------------------------
+    def _owner_of(self, fn: pf.FuncDef, name: str) -> Optional[pf.FuncDef]:
+        cur: Optional[pf.FuncDef] = fn
+        while cur is not None and name not in pf.assignments(cur):
+            cur = self.m.enclosing_func(cur)
+        return cur
+
+    def _reaching(self, owner: pf.FuncDef, use: ast.Name) -> Optional[ast.AST]:
+        """The one definition of the name that reaches this use: the single definition, or - for a name that is re-bound later - the
+        definition no other definition of which lies on a path to the use (flow-sensitive through the CFG)."""
+        defs = pf.assignments(owner)[use.id]
+        if len(defs) == 1:
+            return defs[0]
+        g = pf.cfg(owner)
+        use_nodes = g.node_of(use)
+        if len(use_nodes) != 1:
+            return None
+        un = use_nodes[0]
+        def_nodes: List[Tuple[ast.AST, Optional[pf.Node]]] = []
+        for d in defs:
+            if isinstance(d, ast.arg):
+                def_nodes.append((d, None))
+                continue
+            ns = g.node_of(d)
+            if len(ns) != 1:
+                return None
+            def_nodes.append((d, ns[0]))
+        others = [n for _, n in def_nodes if n is not None]
+        reaching = []
+        for d, n in def_nodes:
+            start = g.entry if n is None else n
+            rest = [x for x in others if x is not n]
+            if n is un and g.path_avoiding(n, lambda x: x is un, lambda x: any(x is y for y in rest)) is None:
+                continue  # the use is evaluated before this very statement binds the name, and no loop leads back
+            if start is un and n is None:
+                reaching.append(d)
+                continue
+            if g.path_avoiding(start, lambda x: x is un, lambda x: any(x is y for y in rest)) is not None:
+                reaching.append(d)
+        return reaching[0] if len(reaching) == 1 else None
+
+    def origin(self, fn: pf.FuncDef, e: ast.AST, kind: str = 'user', depth: int = 6, via: Optional[List[Tuple[pf.FuncDef, str, str]]] = None) -> Set[str]:
+        """What an expression denotes: {'caller'} (kind 'user': the authenticated caller's username) / {'userdata'} (kind 'userdata':
+        the userdata the authenticating wrapper hands to a route handler); 'other:<text>' for a value that is visibly something else;
+        '?<text>' when the analysis gives up.  Parameters of helpers are followed to every call site in the module."""
+        if depth <= 0:
+            return {'?' + pf.nsrc(e)[:40]}
+        while isinstance(e, ast.Await):
+            e = e.value
         if isinstance(e, ast.Name):
-            cur: Optional[pf.FuncDef] = fn
-            while cur is not None:
-                defs = pf.assignments(cur).get(e.id, [])
-                for d in defs:
-                    if isinstance(d, ast.expr) and pf.nsrc(d) == "userdata['username']":
+            owner = self._owner_of(fn, e.id)
+            if owner is None:
+                return {'?' + e.id}
+            d = self._reaching(owner, e)
+            if d is None:
+                return {'?' + e.id}
+            if isinstance(d, ast.arg):
+                if kind == 'userdata' and self.handlers.get(id(owner)) == e.id:
+                    return {'userdata'}
+                if id(owner) in self.handlers:
+                    return {'other:parameter `' + e.id + '` of the route handler ' + owner.name}
+                if via is not None:
+                    via.append((owner, e.id, kind))
+                sites = cf.param_args(self.names, self.fns, owner, e.id)
+                if not sites:
+                    return {'?' + e.id}
+                out: Set[str] = set()
+                for caller, arg in sites:
+                    out |= self.origin(caller, arg, kind, depth - 1) if arg is not None else {'?*'}
+                return out
+            if isinstance(d, ast.expr):
+                return self.origin(owner, d, kind, depth - 1, via)
+            return {'?' + e.id}
+        if kind == 'user' and isinstance(e, ast.Subscript) and pf.const_str(e.slice) == 'username':
+            o = self.origin(fn, e.value, 'userdata', depth - 1, via)
+            if o == {'userdata'}:
+                return {'caller'}
+            return {x for x in o if x != 'userdata'} or {'?' + pf.nsrc(e)[:40]}
+        if isinstance(e, (ast.Call, ast.Constant, ast.BinOp, ast.JoinedStr, ast.IfExp, ast.BoolOp)):
+            return {'other:`' + pf.nsrc(e)[:60] + '`'}
+        return {'?' + pf.nsrc(e)[:40]}
+
+    # ---- the empty result stops the function ---------------------------------------------------------------------------------
+    def _ev_empty(self, e: ast.AST, is_row) -> Optional[bool]:
+        """Three-valued value of a condition when the row is None."""
+        if isinstance(e, ast.BoolOp):
+            vs = [self._ev_empty(v, is_row) for v in e.values]
+            if isinstance(e.op, ast.And):
+                for v in vs:  # short-circuit: operands after a false one are not evaluated
+                    if v is False:
+                        return False
+                    if v is None:
+                        return None
+                return True
+            for v in vs:
+                if v is True:
+                    return True
+                if v is None:
+                    return None
+            return False
+        if isinstance(e, ast.UnaryOp) and isinstance(e.op, ast.Not):
+            v = self._ev_empty(e.operand, is_row)
+            return None if v is None else (not v)
+        if isinstance(e, ast.Compare) and len(e.ops) == 1 and isinstance(e.ops[0], (ast.Is, ast.IsNot, ast.Eq, ast.NotEq)) and isinstance(e.comparators[0], ast.Constant) \
+                and e.comparators[0].value is None and is_row(e.left):
+            return isinstance(e.ops[0], (ast.Is, ast.Eq))
+        if is_row(e):
+            return False
+        return None
+
+    def reach_when_empty(self, fn: pf.FuncDef, g: pf.CFG, start: Optional[pf.Node], var: Optional[str], call: Optional[ast.Call], depth: int = 2) -> Tuple[Set[int], bool]:
+        """(ids of the CFG nodes reachable after the statement at `start` (the function entry when None) when the row held by `var` /
+        returned by `call` is None; whether a condition on the row had to be left undecided)."""
+        undecided = [False]
+
+        def is_row_factory(live: bool):
+            def is_row(x: ast.AST) -> bool:
+                while isinstance(x, ast.Await):
+                    x = x.value
+                if live and var is not None and isinstance(x, ast.Name) and x.id == var:
+                    return True
+                return call is not None and isinstance(x, ast.Call) and (x.lineno, x.col_offset) == (call.lineno, call.col_offset)
+            return is_row
+
+        def reassigns(n: pf.Node) -> bool:
+            if var is None or n is start or n.ast is None:
+                return False
+            a = n.ast
+            if isinstance(a, ast.Assign):
+                return any(isinstance(x, ast.Name) and x.id == var for t in a.targets for x in ast.walk(t))
+            if isinstance(a, (ast.AnnAssign, ast.AugAssign)):
+                return isinstance(a.target, ast.Name) and a.target.id == var
+            if n.kind in ('loop', 'with', 'except'):
+                return any(isinstance(x, ast.Name) and x.id == var and isinstance(x.ctx, ast.Store) for h in pf.node_exprs(n) for x in ast.walk(h)) or \
+                    (n.kind == 'except' and getattr(a, 'name', None) == var)
+            return any(isinstance(x, ast.NamedExpr) and isinstance(x.target, ast.Name) and x.target.id == var for x in pf.walk_shallow(a))
+
+        def guard_blocks(n: pf.Node, live: bool) -> bool:
+            """The statement hands the (None) row to a module helper that raises for it."""
+            if not live or var is None or depth <= 0 or n.ast is None:
+                return False
+            for c in pf.node_calls(n):
+                h = self.resolve(fn, c)
+                if h is None or h is fn:
+                    # the (None) row is handed to a callee this analysis cannot read (imported, a method ...): it may be a check that raises
+                    if any(isinstance(a, ast.Name) and a.id == var for a in list(c.args) + [k.value for k in c.keywords]):
+                        undecided[0] = True
+                    continue
+                amap = cf.call_args_by_param(h, c)
+                if amap is None:
+                    undecided[0] = True
+                    continue
+                for pname, arg in amap.items():
+                    if isinstance(arg, ast.Name) and arg.id == var and self.rejects_empty(h, pname, depth - 1):
                         return True
-                    if isinstance(d, ast.arg) and d.arg == 'user':
-                        return True  # forwarded by the caller; call sites are checked in check_forwarding
-                cur = self.m.enclosing_func(cur)
-        return False
+            return False
+        seen: Set[Tuple[int, bool]] = set()
+        first = start if start is not None else g.entry
+        stack: List[Tuple[pf.Node, bool]] = []
+
+        def push_succs(n: pf.Node, live: bool) -> None:
+            d: Optional[bool] = None
+            if n.kind == 'test' and n.ast is not None:
+                d = self._ev_empty(n.ast, is_row_factory(live))
+                if d is None and var is not None and live and var in pf.names_in(n.ast):
+                    undecided[0] = True
+            blocked = guard_blocks(n, live)
+            for s2, lab in n.succ:
+                if d is True and lab == 'F':
+                    continue
+                if d is False and lab == 'T':
+                    continue
+                if blocked and lab != 'exc':
+                    continue
+                l2 = live and not reassigns(s2)
+                if (s2.id, l2) not in seen:
+                    seen.add((s2.id, l2))
+                    stack.append((s2, l2))
+        push_succs(first, True)
+        while stack:
+            n, live = stack.pop()
+            push_succs(n, live)
+        return {i for i, _ in seen}, undecided[0]
+
+    def rejects_empty(self, h: pf.FuncDef, param: str, depth: int) -> bool:
+        """Helper h cannot return normally when its parameter `param` is None / falsy."""
+        k = (id(h), param)
+        if k not in self.rej_memo:
+            self.rej_memo[k] = False
+            if len(pf.assignments(h).get(param, [])) == 1:
+                g = pf.cfg(h)
+                reach, _ = self.reach_when_empty(h, g, None, param, None, depth)
+                self.rej_memo[k] = g.exit.id not in reach
+        return self.rej_memo[k]
+
+    # ---- candidate owner filters of one function -----------------------------------------------------------------------------
+    def candidates(self, fn: pf.FuncDef) -> List[Cand]:
+        k = id(fn)
+        if k in self.cand_memo:
+            return self.cand_memo[k]
+        out: List[Cand] = []
+        self.cand_memo[k] = out
+        g = pf.cfg(fn)
+        for e in self.embs:
+            if e.fn is not fn:
+                continue
+            c = self._candidate(fn, g, e)
+            if c is not None:
+                out.append(c)
+        return out
+
+    def _candidate(self, fn: pf.FuncDef, g: pf.CFG, e) -> Optional[Cand]:
+        nodes = g.node_of(e.call)
+        node = nodes[0] if len(nodes) == 1 else None
+        if e.sql_text is None:
+            if e.method in ('select_and_fetchone', 'execute_and_fetchone', 'select_and_fetchall', 'execute_and_fetchall'):
+                return Cand(node, e, 'unknown', f'the text of the query at line {e.lineno} is not resolvable')
+            return None
+        sts = e.stmts()
+        if e.parse_error is not None:
+            low = e.sql_text.lower()
+            if 'user' in low and any(t in low for t in OWNER_TABLES):
+                return Cand(node, e, 'unknown', f'the query at line {e.lineno} does not parse ({e.parse_error})')
+            return None
+        if len(sts) != 1 or sts[0].kind != 'select' or sts[0].frm is None:
+            return None
+        st = sts[0]
+        f = cf.SelectFacts(st, self.schema)
+        inner_on = {f'on:{cf._lc(getattr(j.ref, "alias", None) or getattr(j.ref, "name", "") or "?")}' for j in st.frm.joins
+                    if not any(w in (j.jtype or '').upper() for w in ('LEFT', 'RIGHT', 'OUTER'))}
+
+        def filtering(where: str) -> bool:
+            return where == 'where' or where in inner_on
+        ucs = [(a, p) for (a, c), p, w in f.eq_param if c == 'user' and f.table_of(a) in OWNER_TABLES and filtering(w)]
+        if not ucs:
+            # a condition on a `user` column that could not be attributed to a table: looks like an owner filter, not analysable
+            if any(x.kind == 'col' and x.parts[-1].lower() == 'user' for c in f.unresolved for x in (c.left, c.right)):
+                return Cand(node, e, 'unknown', f'the `user` condition of the query at line {e.lineno} cannot be attributed to a table')
+            return None
+        if getattr(st, 'unions', None):
+            return Cand(node, e, 'unknown', f'the query at line {e.lineno} is a UNION')
+        bind = cf.bind_params(e.fn, st, e.call)
+        if bind is None:
+            return Cand(node, e, 'unknown', f'cannot pair the %s of the query at line {e.lineno} with its arguments')
+        # -- the user
+        cand = Cand(node, e, 'valid', '')
+        good_alias = None
+        problems: List[Tuple[str, str]] = []
+        for a, p in ucs:
+            via: List[Tuple[pf.FuncDef, str, str]] = []
+            o = self.origin(fn, bind[p.pos], 'user', 6, via)
+            if o == {'caller'}:
+                good_alias = a
+                cand.forward = via
+                break
+            bad = sorted(x for x in o if x.startswith('other:'))
+            if bad:
+                problems.append(('invalid', f'`{f.table_of(a)}.user = %s` (line {e.lineno}) is bound to `{pf.nsrc(bind[p.pos])}`, which is {bad[0][6:]} and not the authenticated caller'))
+            else:
+                problems.append(('unknown', f'cannot trace `{pf.nsrc(bind[p.pos])}` (bound to `{f.table_of(a)}.user = %s`, line {e.lineno}) back to the authenticated caller: {sorted(o)}'))
+        if good_alias is None:
+            st_, why = sorted(problems)[0] if any(s_ == 'invalid' for s_, _ in problems) else problems[0]
+            cand.status, cand.reason = st_, why
+            return cand
+        # -- the batch: union-find over the equalities between batch keys
+        parent: Dict[Tuple[str, str], Tuple[str, str]] = {}
+
+        def find(x):
+            parent.setdefault(x, x)
+            while parent[x] != x:
+                parent[x] = parent[parent[x]]
+                x = parent[x]
+            return x
+        for x, y, _ in f.eq_col:
+            parent[find(x)] = find(y)
+        key = (good_alias, 'id' if f.table_of(good_alias) == 'batches' else 'batch_id')
+        bps = [p for (a, c), p, w in f.eq_param if filtering(w) and find((a, c)) == find(key)]
+        if not bps:
+            if f.unresolved or any(cc.kind not in ('un', 'col', 'lit') and not (cc.kind == 'bin' and cc.op in ('=', '<', '>', '<=', '>=', '<>', '!=', 'AND', 'OR', 'IS', 'IS NOT')) for cc, _ in f.other):
+                cand.status, cand.reason = 'unknown', f'the query at line {e.lineno} has conditions that are not recognised; cannot decide whether it is tied to the batch'
+            else:
+                cand.status, cand.reason = 'invalid', f'the query at line {e.lineno} filters on the caller but not on the batch id ({f.table_of(key[0])}.{key[1]} is not equated with a bound parameter)'
+            return cand
+        got: Set[str] = set()
+        for p in bps:
+            got |= cf.trace_to_path_component(self.names, self.fns, fn, bind[p.pos], 6, self.handler_params, self.trace_memo)
+        concrete = {x for x in got if not x.startswith('?')}
+        if 'batch_id' not in concrete:
+            if concrete:
+                cand.status, cand.reason = 'invalid', f'the batch key of the query at line {e.lineno} is bound to the path component {sorted(concrete)}, not to {{batch_id}}'
+            else:
+                cand.status, cand.reason = 'unknown', f'cannot trace the batch id bound in the query at line {e.lineno} (`{", ".join(pf.nsrc(bind[p.pos]) for p in bps)}`) back to the path: {sorted(got)}'
+            return cand
+        if concrete - {'batch_id'}:
+            cand.status, cand.reason = 'invalid', f'the batch key of the query at line {e.lineno} is also bound to the path component(s) {sorted(concrete - {"batch_id"})}'
+            return cand
+        # -- the empty result stops the function
+        if node is None:
+            cand.status, cand.reason = 'unknown', f'the query at line {e.lineno} is not a statement of its own'
+            return cand
+        var = None
+        if isinstance(node.ast, ast.Assign) and len(node.ast.targets) == 1 and isinstance(node.ast.targets[0], ast.Name):
+            var = node.ast.targets[0].id
+        elif isinstance(node.ast, ast.AnnAssign) and isinstance(node.ast.target, ast.Name):
+            var = node.ast.target.id
+        elif node.kind != 'test':
+            cand.status, cand.reason = 'unknown', f'the result of the query at line {e.lineno} is not bound to a name or tested directly'
+            return cand
+        if node.kind == 'test':
+            # the query is the condition itself: start at the test with the call as the row
+            reach, und = self.reach_when_empty_from_test(fn, g, node, e.call)
+        else:
+            reach, und = self.reach_when_empty(fn, g, node, var, e.call)
+        leaks = []
+        if g.exit.id in reach:
+            leaks.append('a normal return')
+        for wn, _, desc in self.write_nodes(fn, g, 4):
+            if wn.id in reach and wn is not node:
+                leaks.append(f'`{desc}` (line {wn.lineno})')
+        if leaks:
+            if und:
+                cand.status, cand.reason = 'unknown', f'cannot decide what happens when the query at line {e.lineno} finds no row: a condition on `{var}` is not recognised'
+            else:
+                cand.status, cand.reason = 'invalid', f'when the query at line {e.lineno} finds no row (the caller does not own the batch) the function still reaches {leaks[0]}'
+        return cand
+
+    def reach_when_empty_from_test(self, fn: pf.FuncDef, g: pf.CFG, node: pf.Node, call: ast.Call) -> Tuple[Set[int], bool]:
+        d = self._ev_empty(node.ast, lambda x: isinstance(x.value if isinstance(x, ast.Await) else x, ast.Call) and
+                           ((x.value if isinstance(x, ast.Await) else x).lineno, (x.value if isinstance(x, ast.Await) else x).col_offset) == (call.lineno, call.col_offset))
+        out: Set[int] = set()
+        und = d is None
+        for s2, lab in node.succ:
+            if (d is True and lab == 'F') or (d is False and lab == 'T'):
+                continue
+            out.add(s2.id)
+            out |= g.reachable_from(s2)
+        return out, und
 
     def filter_nodes(self, fn: pf.FuncDef, g: pf.CFG) -> List[pf.Node]:
         out = []
-        for e in self.embs:
-            if e.fn is not fn or e.sql_text is None:
-                continue
-            sts = e.stmts()
-            if len(sts) != 1 or sts[0].kind != 'select':
-                continue
-            st = sts[0]
-            tabs = [t.lower() for t in sf.table_names(st.frm)] if st.frm is not None else []
-            if not ({'batches', 'job_groups'} & set(tabs)):
-                continue
-            params = sr.params_in_order(st)
-            elts = sr.args_tuple(e.fn, e.call.args[1] if len(e.call.args) > 1 else None)
-            if elts is None or len(elts) != len(params):
-                continue
-            bind = {p.pos: x for p, x in zip(params, elts)}
-            user_ok = batch_ok = False
-            for c in sf.conjuncts(st.where):
-                if c.kind == 'bin' and c.op == '=' and c.right.kind == 'param':
-                    col = text(c.left).lower().replace('`', '')
-                    val = bind[c.right.pos]
-                    if col in ('user', 'batches.user', 'job_groups.user') and self.caller_user_expr(fn, val):
-                        user_ok = True
-                    if col in ('id', 'batches.id', 'batch_id', 'batch_updates.batch_id', 'job_groups.batch_id') and pf.nsrc(val) in ('batch_id', 'id'):
-                        batch_ok = True
-            if not (user_ok and batch_ok):
-                continue
-            nodes = g.node_of(e.call)
-            if not nodes or not isinstance(nodes[0].ast, ast.Assign):
-                continue
-            var = pf.nsrc(nodes[0].ast.targets[0])
-            # directly followed by `if not <var>: raise`
-            cur = nodes[0]
-            for _ in range(3):
-                nxt = [s for s, lab in cur.succ if lab != 'exc']
-                if len(nxt) != 1:
-                    break
-                cur = nxt[0]
-                if cur.kind == 'test' and pf.nsrc(cur.ast) in (f'not {var}', f'{var} is None'):
-                    if any(s.kind == 'raise' for s, lab in cur.succ if lab == 'T'):
-                        out.append(nodes[0])
-                    break
+        for c in self.candidates(fn):
+            if c.status == 'valid' and c.node is not None:
+                out.append(c.node)
+                for owner, pname, kind in c.forward:
+                    self.forwarded.setdefault((id(owner), pname), (owner, pname, kind))
+        return out
+
+    def unknown_in(self, roots: List[pf.FuncDef]) -> List[str]:
+        out = []
+        for f in self.names.reachable(roots, 5):
+            for c in self.candidates(f):
+                if c.status == 'unknown':
+                    out.append(f'{self.m.qualname(f)}: {c.reason}')
+            # the caller's name handed to a callee this analysis cannot read (a method, a function of another module): the owner check
+            # may have been moved there
+            for c2 in pf.walk_shallow(f):
+                if not isinstance(c2, ast.Call) or self.resolve(f, c2) is not None:
+                    continue
+                name = pf.dotted(c2.func) or pf.nsrc(c2.func)
+                if name.startswith(cf.LOG_PREFIXES) or (isinstance(c2.func, ast.Attribute) and c2.func.attr in sf.EXEC_METHODS) or name in cf.BENIGN or name.startswith('web.HTTP'):
+                    continue
+                for a in list(c2.args) + [k.value for k in c2.keywords]:
+                    if isinstance(a, ast.Name) and self._owner_of(f, a.id) is not None and self.origin(f, a, 'user') == {'caller'}:
+                        out.append(f'{self.m.qualname(f)}: the caller\'s name `{a.id}` is handed to `{name}(...)` (line {c2.lineno}), which is not a function of this module: '
+                                   'cannot decide whether ownership is established there')
+        return out
+
+    def invalid_in(self, roots: List[pf.FuncDef]) -> List[str]:
+        out = []
+        for f in self.names.reachable(roots, 5):
+            for c in self.candidates(f):
+                if c.status == 'invalid':
+                    out.append(f'{self.m.qualname(f)}: {c.reason}')
         return out
 
     def write_nodes(self, fn: pf.FuncDef, g: pf.CFG, depth: int) -> List[Tuple[pf.Node, Optional[pf.FuncDef], str]]:
@@ -326,101 +687,270 @@ class OwnerAnalysis:
         return g.path_avoiding(g.entry, lambda x: x is g.exit, lambda x: any(x is f for f in filters)) is None
 
 
-def check_forwarding(ctx: Ctx, m: pf.Module) -> None:
-    """Helpers that take the caller's name as a parameter `user` must receive the authenticated username at every call site."""
-    helpers = {}
-    for fn in m.tree.body:
-        if isinstance(fn, (ast.FunctionDef, ast.AsyncFunctionDef)) and fn.name in ('_create_batch_update', '_create_job_groups', '_commit_update'):
-            helpers[fn.name] = fn
+def check_forwarding(ctx: Ctx, m: pf.Module, oa: OwnerAnalysis) -> None:
+    """Helpers whose owner filter is evaluated for a name they RECEIVE (a parameter, whatever it is called) must be handed the
+    authenticated caller at every call site in the module."""
     n = 0
-    for node in ast.walk(m.tree):
-        if isinstance(node, ast.Call) and pf.dotted(node.func) in helpers:
-            h = helpers[pf.dotted(node.func)]
-            names = [a.arg for a in h.args.args]
-            if 'user' not in names:
-                continue
-            i = names.index('user')
-            arg = node.args[i] if i < len(node.args) else next((k.value for k in node.keywords if k.arg == 'user'), None)
-            caller = m.enclosing_func(node)
-            ok = arg is not None and (pf.nsrc(arg) == "userdata['username']" or
-                                      (isinstance(arg, ast.Name) and caller is not None and any(isinstance(d, ast.expr) and pf.nsrc(d) == "userdata['username']"
-                                                                                               for d in pf.assignments(caller).get(arg.id, []))))
+    todo = list(oa.forwarded.values())
+    done: Set[Tuple[int, str]] = set()
+    while todo:
+        h, pname, kind = todo.pop()
+        if (id(h), pname) in done:
+            continue
+        done.add((id(h), pname))
+        for caller, call, arg in cf.param_call_sites(oa.names, oa.fns, h, pname):
             n += 1
-            ctx.check(ok, 'R3', f'{FE}::{m.qualname(caller) if caller else "?"}::passes caller to {h.name}', f'{h.name}(.. user={pf.nsrc(arg) if arg is not None else None} ..): the owner filter inside '
-                      'would be evaluated for someone other than the authenticated caller', m.path, node.lineno)
+            cons = f'{FE}::{m.qualname(caller)}::passes caller to {h.name}'
+            o = oa.origin(caller, arg, kind) if arg is not None else {'?*'}
+            if o == ({'caller'} if kind == 'user' else {'userdata'}):
+                ctx.ok('R3', cons, f'{pname} = {pf.nsrc(arg)}')
+                continue
+            bad = sorted(x for x in o if x.startswith('other:'))
+            if bad:
+                ctx.bad('R3', cons, f'{h.name}(.. {pname}={pf.nsrc(arg) if arg is not None else None} ..): the owner filter inside would be evaluated for {bad[0][6:]}, i.e. for someone other than the '
+                        'authenticated caller', m.path, call.lineno)
+                continue
+            raise AnalysisError(f'{cons}: cannot trace `{pf.nsrc(arg) if arg is not None else "*args"}` back to the authenticated caller ({sorted(o)})')
     ctx.need(n >= 5, f'only {n} call sites of the owner-filtering helpers found')
 
 
 # ------------------------------------------------------------------------------------------------
+def _deco_names(fn: pf.FuncDef) -> List[str]:
+    return [(pf.dotted(d.func) if isinstance(d, ast.Call) else pf.dotted(d)) or pf.nsrc(d) for d in fn.decorator_list]
+
+
+def _built_on_users_only(ctx: Ctx, m: pf.Module, w: pf.FuncDef, construct: str, what: str) -> bool:
+    """The wrapper is itself decorated by authenticated_users_only (so that `userdata` is the authenticated caller's).  A violation
+    only when every decorator of the wrapper is understood and none of them authenticates; an unknown decorator declines."""
+    names = _deco_names(w)
+    if any(n.split('.')[-1] == 'authenticated_users_only' for n in names):
+        return True
+    unknown = [n for n in names if n.split('.')[-1] not in ('wraps',) and n not in NEUTRAL]
+    ctx.need(not unknown, f'{construct}: decorator(s) {unknown} of the wrapper not classified')
+    ctx.bad('R5', construct, f'{what} is not built on authenticated_users_only (decorators of the wrapper: {names}): its `userdata` is not the authenticated caller', m.path, w.lineno)
+    return False
+
+
+def _wrapper(ctx: Ctx, m: pf.Module, qual: str) -> Tuple[pf.Module, pf.FuncDef, str]:
+    """(module [copy with helpers inlined], the wrapper function inside decorator `qual`, name of the handler parameter)."""
+    deco = m.func(qual)
+    fw = cf.find_wrapped(m, deco)
+    ctx.need(fw is not None, f'{m.rel}::{qual}: the function that calls the wrapped handler was not found (or there are several)')
+    w, _, handler = fw  # type: ignore[misc]
+    wq = m.qualname(w)
+    m2, w2 = cf.inlined_copy(m, wq, exclude=('_user_can_access',))
+    return m2, w2, handler
+
+
 def r5_wrappers(ctx: Ctx, m: pf.Module) -> None:
     gm = pf.load('gear/gear/auth.py')
-    w = gm.func('Authenticator.authenticated_users_only.wrap.wrapped')
+    # ---- authenticated_users_only: userdata fetched for this request; missing / inactive users never reach the handler
+    gm2, w, handler = _wrapper(ctx, gm, 'Authenticator.authenticated_users_only')
     g = pf.cfg(w)
-    calls = g.find(lambda n: any(pf.dotted(c.func) == 'fun' for c in pf.node_calls(n)))
-    ctx.need(len(calls) == 1, 'authenticated_users_only: handler call not found')
-    t_missing = g.find(lambda n: n.kind == 'test' and pf.nsrc(n.ast) == 'not userdata')
-    t_inactive = g.find(lambda n: n.kind == 'test' and pf.nsrc(n.ast) == "userdata['state'] == 'inactive'")
+    fetch = g.find(lambda n: any((pf.dotted(c.func) or '').endswith('._fetch_userdata') for c in pf.node_calls(n)))
+    ctx.need(len(fetch) == 1 and isinstance(fetch[0].ast, (ast.Assign, ast.AnnAssign)), 'authenticated_users_only: `<userdata> = await self._fetch_userdata(request)` not found')
+    tgt = fetch[0].ast.targets[0] if isinstance(fetch[0].ast, ast.Assign) else fetch[0].ast.target
+    ctx.need(isinstance(tgt, ast.Name) and len(pf.assignments(w).get(tgt.id, [])) == 1, 'authenticated_users_only: the fetched userdata is re-assigned')
+    uvar = tgt.id
+    gate = cf.Gate(gm2, w, handler, lambda fn, e: cf.subscript_role(fn, e, uvar, 'userdata'))
+    ctx.need(len(gate.calls) >= 1, 'authenticated_users_only: handler call not found')
+    A_USER, A_INACTIVE = ('truthy', 'userdata'), ('eq', "userdata['state']", 'inactive')
 
-    def blocks(tests: List[pf.Node]) -> bool:
-        if not tests:
-            return False
-        # the handler call is unreachable when the test is true
-        return g.path_avoiding(g.entry, lambda n: n is calls[0], lambda n: False, edge_ok=lambda a, b, lab: not (a in tests and lab == 'F')) is None
-    ctx.check(blocks(t_missing), 'R5', 'gear/gear/auth.py::authenticated_users_only::missing user', 'the handler is reachable without userdata (unauthenticated request)', gm.path, w.lineno)
-    ctx.check(blocks(t_inactive), 'R5', 'gear/gear/auth.py::authenticated_users_only::inactive user', 'the handler is reachable for an inactive account', gm.path, w.lineno)
-    fetch = g.find(lambda n: any(pf.dotted(c.func) == 'self._fetch_userdata' for c in pf.node_calls(n)))
-    ctx.check(len(fetch) == 1 and g.dominated_by(calls[0], lambda n: n is fetch[0]) and [pf.nsrc(a) for a in pf.node_calls(calls[0])[0].args] == ['request', 'userdata'], 'R5',
-              'gear/gear/auth.py::authenticated_users_only::userdata source', 'the userdata handed to the handler is not the one fetched for this request', gm.path, w.lineno)
+    def verdict(construct: str, requirement, extra, message: str, path: str, line: int, g8: cf.Gate) -> None:
+        st, val = g8.enforce(requirement, extra)
+        if st == 'undecided':
+            raise AnalysisError(f'{construct}: cannot decide whether the handler is reachable when {cf.show_valuation(val) or "the requirement fails"} (conditions not recognised)')
+        ctx.check(st == 'ok', 'R5', construct, f'{message} (reachable with {cf.show_valuation(val)})', path, line)
+    verdict('gear/gear/auth.py::authenticated_users_only::missing user', lambda v: v[A_USER], [A_USER], 'the handler is reachable without userdata (unauthenticated request)', gm.path, w.lineno, gate)
+    verdict('gear/gear/auth.py::authenticated_users_only::inactive user', lambda v: not v[A_USER] or not v[A_INACTIVE], [A_USER, A_INACTIVE], 'the handler is reachable for an inactive account', gm.path, w.lineno, gate)
+    wparams = [a.arg for a in w.args.posonlyargs + w.args.args]
+    ok_src = True
+    why = ''
+    for cn in gate.calls:
+        for c in pf.node_calls(cn):
+            if not (isinstance(c.func, ast.Name) and c.func.id == handler):
+                continue
+            ctx.need(len(c.args) >= 2 and not any(isinstance(a, ast.Starred) for a in c.args[:2]), 'authenticated_users_only: arguments of the handler call not recognised')
+            a0, a1 = c.args[0], c.args[1]
+            ctx.need(isinstance(a0, ast.Name) and isinstance(a1, ast.Name), f'authenticated_users_only: handler called with `{pf.nsrc(a0)}`, `{pf.nsrc(a1)}`: not plain names')
+            if not (wparams and a0.id == wparams[0]):
+                ok_src, why = False, f'the handler receives `{a0.id}` instead of the request'
+            if a1.id != uvar:
+                ok_src, why = False, f'the handler receives `{a1.id}`, not the userdata fetched for this request (`{uvar}`)'
+            if not g.dominated_by(cn, lambda n: n is fetch[0]):
+                ok_src, why = False, 'the handler call is reachable without fetching the userdata'
+    fc = [c for c in pf.node_calls(fetch[0]) if (pf.dotted(c.func) or '').endswith('._fetch_userdata')][0]
+    if not (fc.args and isinstance(fc.args[0], ast.Name) and wparams and fc.args[0].id == wparams[0]):
+        ctx.need(bool(fc.args) and isinstance(fc.args[0], ast.Name), 'authenticated_users_only: argument of _fetch_userdata not recognised')
+        ok_src, why = False, f'the userdata is fetched for `{pf.nsrc(fc.args[0])}`, not for this request'
+    ctx.check(ok_src, 'R5', 'gear/gear/auth.py::authenticated_users_only::userdata source', f'the userdata handed to the handler is not the one fetched for this request: {why}', gm.path, w.lineno)
 
-    def built_on(fn: pf.FuncDef, deco: str) -> bool:
-        return any((pf.dotted(d.func) if isinstance(d, ast.Call) else pf.dotted(d)) == deco for d in fn.decorator_list)
+    # ---- developers only / developers or the auth service
+    def user_param_gate(mod: pf.Module, qual: str) -> Tuple[cf.Gate, pf.FuncDef, pf.Module]:
+        m2, w2, h2 = _wrapper(ctx, mod, qual)
+        ps = [a.arg for a in w2.args.posonlyargs + w2.args.args]
+        ctx.need(len(ps) >= 2, f'{mod.rel}::{qual}: the wrapper does not take (request, userdata)')
+        g8 = cf.Gate(m2, w2, h2, lambda fn, e: cf.subscript_role(fn, e, ps[1], 'userdata'))
+        ctx.need(len(g8.calls) >= 1, f'{mod.rel}::{qual}: handler call not found')
+        return g8, w2, m2
+    A_DEV, A_AUTH = ('eq', "userdata['is_developer']", 1), ('eq', "userdata['username']", 'auth')
+    g8, dv, _ = user_param_gate(gm, 'Authenticator.authenticated_developers_only')
+    if _built_on_users_only(ctx, gm, dv, 'gear/gear/auth.py::authenticated_developers_only', 'authenticated_developers_only'):
+        verdict('gear/gear/auth.py::authenticated_developers_only', lambda v: v[A_DEV], [A_DEV], 'the handler is reachable for a non-developer', gm.path, dv.lineno, g8)
+    g8, da, _ = user_param_gate(m, 'authenticated_developers_or_auth_only')
+    if _built_on_users_only(ctx, m, da, f'{FE}::authenticated_developers_or_auth_only', 'authenticated_developers_or_auth_only'):
+        verdict(f'{FE}::authenticated_developers_or_auth_only', lambda v: v[A_DEV] or v[A_AUTH], [A_DEV, A_AUTH],
+                'the handler is reachable for a caller that is neither a developer nor the auth service', m.path, da.lineno, g8)
 
-    def only_under(fn: pf.FuncDef, cond_src: str) -> bool:
-        g2 = pf.cfg(fn)
-        c2 = g2.find(lambda n: any(pf.dotted(c.func) == 'fun' for c in pf.node_calls(n)))
-        tests = g2.find(lambda n: n.kind == 'test' and pf.nsrc(n.ast) == cond_src)
-        return len(c2) == 1 and bool(tests) and g2.path_avoiding(g2.entry, lambda n: n is c2[0], lambda n: False, edge_ok=lambda a, b, lab: not (a in tests and lab == 'T')) is None
-    dv = gm.func('Authenticator.authenticated_developers_only.wrap.wrapped')
-    ctx.check(built_on(dv, 'self.authenticated_users_only') and only_under(dv, "userdata['is_developer'] == 1"), 'R5', 'gear/gear/auth.py::authenticated_developers_only',
-              'not built on authenticated_users_only or the handler is reachable for a non-developer', gm.path, dv.lineno)
-    da = m.func('authenticated_developers_or_auth_only.wrapped')
-    ctx.check(built_on(da, 'auth.authenticated_users_only') and only_under(da, "userdata['is_developer'] == 1 or userdata['username'] == 'auth'"), 'R5', f'{FE}::authenticated_developers_or_auth_only',
-              'not built on authenticated_users_only or the handler is reachable for a caller that is neither a developer nor the auth service', m.path, da.lineno)
-    bp = m.func('billing_project_users_only.wrap.wrapped')
-    g3 = pf.cfg(bp)
-    c3 = g3.find(lambda n: any(pf.dotted(c.func) == 'fun' for c in pf.node_calls(n)))
-    acc = g3.find(lambda n: any(pf.dotted(c.func) == '_user_can_access' for c in pf.node_calls(n)))
-    okb = built_on(bp, 'auth.authenticated_users_only') and len(c3) == 1 and len(acc) == 1
-    if okb:
-        call = [c for c in pf.node_calls(acc[0]) if pf.dotted(c.func) == '_user_can_access'][0]
-        args = [pf.nsrc(pf.resolve_expr(bp, a)) for a in call.args]
-        var = pf.nsrc(acc[0].ast.targets[0]) if isinstance(acc[0].ast, ast.Assign) else '?'
-        tests = g3.find(lambda n: n.kind == 'test' and pf.nsrc(n.ast) == f'not {var}')
-        okb = args[1:] == ["int(request.match_info['batch_id'])", "userdata['username']"] and bool(tests) and \
-            g3.path_avoiding(g3.entry, lambda n: n is c3[0], lambda n: False, edge_ok=lambda a, b, lab: not (a in tests and lab == 'F')) is None and \
-            [pf.nsrc(a) for a in pf.node_calls(c3[0])[0].args][:2] == ['request', 'userdata']
-    ctx.check(okb, 'R5', f'{FE}::billing_project_users_only', 'the wrapper does not test membership for (the path\'s batch id, the caller) and raise before calling the handler', m.path, bp.lineno)
+    # ---- billing_project_users_only: membership of (the path's batch id, the caller) decides
+    m2, bp, handler = _wrapper(ctx, m, 'billing_project_users_only')
+    ps = [a.arg for a in bp.args.posonlyargs + bp.args.args]
+    ctx.need(len(ps) >= 2, 'billing_project_users_only: the wrapper does not take (request, userdata)')
     ua = m.func('_user_can_access')
-    e = [x for x in sf.embedded_in(m) if x.fn is ua]
-    oku = len(e) == 1
-    if oku:
-        st = e[0].stmts()[0]
-        on = [text(c).lower() for j in st.frm.joins for c in sf.conjuncts(j.on)]
-        elts = sr.args_tuple(ua, e[0].call.args[1])
-        conj = {text(c.left).lower().replace('`', ''): c.right for c in sf.conjuncts(st.where) if c.kind == 'bin' and c.op == '='}
-        params = sr.params_in_order(st)
-        bind = {p.pos: pf.nsrc(x) for p, x in zip(params, elts or [])}
-        oku = sf.table_names(st.frm)[0].lower() == 'batches' and '(batches.billing_project = billing_project_users.billing_project)' in on and \
-            bind.get(getattr(conj.get('id'), 'pos', None)) == 'batch_id' and bind.get(getattr(conj.get('billing_project_users.user_cs'), 'pos', None)) == 'user'
-        ret = [n for n in ast.walk(ua) if isinstance(n, ast.Return)]
-        oku = oku and len(ret) == 1 and pf.nsrc(ret[0].value) == 'record is not None'
-    ctx.check(oku, 'R5', f'{FE}::_user_can_access', 'membership is not decided by joining the batch\'s billing project with billing_project_users for (batch id, caller)', m.path, ua.lineno)
-    # pass-through decorators call the wrapped function with the same leading arguments
+    acc_calls: List[ast.Call] = [c for c in pf.walk_shallow(bp) if isinstance(c, ast.Call) and pf.dotted(c.func) == ua.name]
+
+    def access_role(fn: pf.FuncDef, e: ast.AST) -> Optional[str]:
+        x = e
+        for _ in range(3):
+            if isinstance(x, ast.Name):
+                d = pf.single_def(fn, x.id)
+                if not isinstance(d, ast.expr):
+                    return None
+                x = d
+            elif isinstance(x, ast.Await):
+                x = x.value
+            else:
+                break
+        # (the expression may be a copy made by local expansion: compare the call site, not the object)
+        return 'membership test' if isinstance(x, ast.Call) and any(pf.dotted(x.func) == ua.name and (x.lineno, x.col_offset) == (c.lineno, c.col_offset) for c in acc_calls) else None
+    cons_bp = f'{FE}::billing_project_users_only'
+    if _built_on_users_only(ctx, m, bp, cons_bp, 'billing_project_users_only'):
+        ctx.need(len(acc_calls) == 1, f'billing_project_users_only: {len(acc_calls)} calls of _user_can_access in the wrapper')
+        g8 = cf.Gate(m2, bp, handler, access_role)
+        ctx.need(len(g8.calls) >= 1, 'billing_project_users_only: handler call not found')
+        A_MEM = ('truthy', 'membership test')
+        st, val = g8.enforce(lambda v: v[A_MEM], [A_MEM])
+        if st == 'undecided':
+            raise AnalysisError(f'{cons_bp}: cannot decide whether the handler is reachable when _user_can_access answers false (conditions not recognised)')
+        okb, whyb = st == 'ok', 'the handler is reachable when _user_can_access(...) is false'
+        amap = cf.call_args_by_param(ua, acc_calls[0])
+        ctx.need(amap is not None, 'billing_project_users_only: arguments of _user_can_access not recognised')
+        roles = _user_can_access_roles(ctx, m, ua)  # parameter of _user_can_access -> 'batch' | 'user'
+        flow = cf.PathFlow(m2)
+        for pname, role in roles.items():
+            ctx.need(pname in amap, f'billing_project_users_only: no argument for parameter `{pname}` of _user_can_access')
+            arg = amap[pname]  # type: ignore[index]
+            if role == 'batch':
+                got = cf.trace_to_path_component(flow, [bp], bp, arg)
+                ctx.need(not any(x.startswith('?') for x in got), f'billing_project_users_only: the batch id handed to _user_can_access (`{pf.nsrc(arg)}`) does not trace back to a path component')
+                if got != {'batch_id'}:
+                    okb, whyb = False, f'membership is tested for the path component {sorted(got)} instead of {{batch_id}}'
+            else:
+                r = cf.subscript_role(bp, arg, ps[1], 'userdata')
+                ctx.need(r is not None, f'billing_project_users_only: the user handed to _user_can_access (`{pf.nsrc(arg)}`) is not a field of the authenticated userdata')
+                if r != "userdata['username']":
+                    okb, whyb = False, f'membership is tested for {r} instead of the caller\'s username'
+        for cn in g8.calls:
+            for c in pf.node_calls(cn):
+                if isinstance(c.func, ast.Name) and c.func.id == handler:
+                    ctx.need(len(c.args) >= 2 and all(isinstance(a, ast.Name) for a in c.args[:2]), 'billing_project_users_only: arguments of the handler call not recognised')
+                    if [a.id for a in c.args[:2]] != ps[:2]:  # type: ignore[union-attr]
+                        okb, whyb = False, f'the handler is called with ({pf.nsrc(c.args[0])}, {pf.nsrc(c.args[1])}) instead of this request and its authenticated userdata'
+                    if len(c.args) >= 3:
+                        got = cf.trace_to_path_component(flow, [bp], bp, c.args[2])
+                        if got and not any(x.startswith('?') for x in got) and got != {'batch_id'}:
+                            okb, whyb = False, f'the handler receives the path component {sorted(got)} as its batch id, not the {{batch_id}} membership was tested for'
+        ctx.check(okb, 'R5', cons_bp, f'the wrapper does not test membership for (the path\'s batch id, the caller) and raise before calling the handler: {whyb}', m.path, bp.lineno)
+    # ---- pass-through decorators: they call (or are) the function they decorate, wrapper included
     for name in sorted(NEUTRAL & {f.name for f in m.tree.body if isinstance(f, (ast.FunctionDef, ast.AsyncFunctionDef))}):
         fn = m.func(name)
-        inner = [n for n in ast.walk(fn) if isinstance(n, (ast.AsyncFunctionDef, ast.FunctionDef)) and n is not fn]
-        okp = bool(inner) and any(isinstance(c, ast.Call) and pf.dotted(c.func) in ('fun', 'f', 'handler') and c.args and pf.nsrc(c.args[0]) == 'request' for i in inner for c in ast.walk(i))
-        ctx.check(okp, 'R5', f'{FE}::{name}::pass-through', 'this decorator does not simply call the wrapped handler with the request', m.path, fn.lineno)
+        skips = [n for n in ast.walk(fn) if isinstance(n, ast.Attribute) and n.attr == '__wrapped__']
+        if skips:
+            ctx.bad('R5', f'{FE}::{name}::pass-through', f'this decorator reaches below the function it decorates (`{pf.nsrc(skips[0])}`): an authenticating wrapper underneath is skipped', m.path, skips[0].lineno)
+            continue
+        fw = cf.find_wrapped(m, fn)
+        params = [a.arg for a in fn.args.posonlyargs + fn.args.args]
+        returns_param = any(isinstance(r, ast.Return) and isinstance(r.value, ast.Name) and r.value.id in params for r in pf.walk_shallow(fn))
+        ctx.need(fw is not None or returns_param, f'{FE}::{name}: pass-through decorator neither calls nor returns the function it decorates (shape not recognised)')
+        ctx.ok('R5', f'{FE}::{name}::pass-through', 'calls / returns the decorated function')
+
+
+def _user_can_access_roles(ctx: Ctx, m: pf.Module, ua: pf.FuncDef) -> Dict[str, str]:
+    """_user_can_access decides membership by joining the batch's billing project with billing_project_users for (batch id, caller):
+    checked structurally (aliases, operand order, conjunct order, where the text lives do not matter).  Returns which parameter of the
+    function is bound to batches.id ('batch') and which to billing_project_users.user_cs ('user')."""
+    cons = f'{FE}::_user_can_access'
+    embs = [x for x in sf.embedded_in(m) if x.fn is ua]
+    ctx.need(len(embs) == 1 and embs[0].sql_text is not None, f'{cons}: expected exactly one resolvable embedded statement (found {len(embs)})')
+    e = embs[0]
+    sts = e.stmts()
+    ctx.need(not e.parse_error and len(sts) == 1 and sts[0].kind == 'select' and sts[0].frm is not None, f'{cons}: the statement is not a single SELECT ({e.parse_error})')
+    st = sts[0]
+    prog = sf.load_program()
+    schema = {k.lower(): {c.lower() for c in v} for k, v in prog.tables.items()}
+    bind = cf.bind_params(ua, st, e.call)
+    ctx.need(bind is not None, f'{cons}: cannot pair the %s of the statement with its arguments')
+    f = cf.SelectFacts(st, schema, bind)
+    tabs = set(f.alias.values())
+    ctx.need(not f.unresolved and not f.derived and not st.group and not getattr(st, 'unions', None), f'{cons}: statement shape not recognised')
+    params = [a.arg for a in ua.args.posonlyargs + ua.args.args]
+    roles: Dict[str, str] = {}
+    oku, why = True, ''
+    if not ({'batches', cf.TABLE} <= tabs):
+        oku, why = False, f'the statement ranges over {sorted(tabs)}, not over batches joined with {cf.TABLE}'
+    else:
+        if not f.joined_on('batches', 'billing_project', cf.TABLE, 'billing_project'):
+            ctx.need(not f.other or all(w == 'where' for _, w in f.other), f'{cons}: join condition not recognised')
+            oku, why = False, f'batches and {cf.TABLE} are not joined on the billing project'
+        for (tab, col), role, label in ((('batches', 'id'), 'batch', 'batches.id'), ((cf.TABLE, 'user_cs'), 'user', f'{cf.TABLE}.user_cs')):
+            ps = [(p, w) for p, w in f.params_of(tab, col) if w == 'where' or tab == cf.TABLE]
+            if not ps:
+                extra = [text(c) for c, _ in f.other]
+                ctx.need(all(cc.kind in ('un', 'col') for cc, _ in f.other), f'{cons}: conditions {extra} not recognised')
+                oku, why = False, f'no conjunct `{label} = %s`'
+                continue
+            val = bind[ps[0][0].pos]  # type: ignore[index]
+            ctx.need(isinstance(val, ast.Name) and val.id in params and len(pf.assignments(ua).get(val.id, [])) == 1, f'{cons}: `{label} = %s` is bound to `{pf.nsrc(val)}`, not to a parameter of the function')
+            roles[val.id] = role  # type: ignore[union-attr]
+        # the row must be rejected when there is no membership row: the user conjunct is null-rejecting in WHERE, or the join is inner
+        if oku:
+            for j in st.frm.joins:
+                if j.ref.kind == 'table' and j.ref.name.lower() == cf.TABLE and 'LEFT' in (j.jtype or '').upper():
+                    if not any(w == 'where' for _, w in f.params_of(cf.TABLE, 'user_cs')):
+                        oku, why = False, f'{cf.TABLE} is outer-joined and the user condition sits in the ON clause: batches without a membership row still produce a row'
+    if oku and len(set(roles.values())) < 2:
+        oku, why = False, f'batch id and user are bound to the same parameter ({roles})'
+    # the answer is `<row> is not None`
+    rets = [n for n in pf.walk_shallow(ua) if isinstance(n, ast.Return)]
+    ctx.need(len(rets) == 1 and rets[0].value is not None, f'{cons}: expected one return')
+    rv = pf.expand_locals(ua, rets[0].value, 3)
+    rec_names = set()
+    g = pf.cfg(ua)
+    for n in g.node_of(e.call):
+        if isinstance(n.ast, ast.Assign) and isinstance(n.ast.targets[0], ast.Name):
+            rec_names.add(n.ast.targets[0].id)
+        elif isinstance(n.ast, ast.AnnAssign) and isinstance(n.ast.target, ast.Name):
+            rec_names.add(n.ast.target.id)
+
+    def is_rec(x: ast.AST) -> bool:
+        if isinstance(x, ast.Await):
+            x = x.value
+        return (isinstance(x, ast.Name) and x.id in rec_names) or x is e.call
+    if isinstance(rv, ast.Compare) and len(rv.ops) == 1 and isinstance(rv.ops[0], ast.IsNot) and is_rec(rv.left) and isinstance(rv.comparators[0], ast.Constant) and rv.comparators[0].value is None:
+        pass
+    elif isinstance(rv, ast.Call) and pf.dotted(rv.func) == 'bool' and len(rv.args) == 1 and is_rec(rv.args[0]):
+        pass
+    elif isinstance(rv, ast.Compare) and len(rv.ops) == 1 and isinstance(rv.ops[0], ast.Is) and is_rec(rv.left) and isinstance(rv.comparators[0], ast.Constant) and rv.comparators[0].value is None:
+        oku, why = False, 'the function answers `<row> is None`: members are rejected and everyone else admitted'
+    elif isinstance(rv, ast.Constant):
+        oku, why = False, f'the function answers the constant {rv.value!r}'
+    else:
+        raise AnalysisError(f'{cons}: the answer `{pf.nsrc(rets[0].value)}` is not `<row> is not None`')
+    ctx.check(oku, 'R5', cons, f'membership is not decided by joining the batch\'s billing project with billing_project_users for (batch id, caller): {why}', m.path, ua.lineno)
+    if not oku:
+        # the caller of this function cannot map its arguments; fall back to the positional convention so that the wrapper check still runs
+        roles = {params[1]: 'batch', params[2]: 'user'} if len(params) >= 3 else {}
+    return roles
 
 
 def r6_scoped_listings(ctx: Ctx) -> None:
@@ -446,16 +976,49 @@ def r6_scoped_listings(ctx: Ctx) -> None:
                 continue
             fn = m.func(name)
             c = sc.Closedness(m, method_closed)
+            # the list the WHERE clause is joined from, whatever it is called: `' AND '.join(<list>)`
+            all_joins = [n for n in ast.walk(fn) if isinstance(n, ast.Call) and isinstance(n.func, ast.Attribute) and n.func.attr == 'join' and len(n.args) == 1 and isinstance(n.args[0], ast.Name)
+                         and isinstance(pf.const_str(n.func.value), str)]
+            and_joins = [j for j in all_joins if pf.const_str(j.func.value).strip().upper() == 'AND']  # type: ignore[union-attr]
+            sink_names = sorted({j.args[0].id for j in and_joins})  # type: ignore[attr-defined]
             sinks: List = []
-            c.run(fn.body, {}, sinks, 'where_conditions')
-            joins = [n for n in ast.walk(fn) if isinstance(n, ast.Call) and isinstance(n.func, ast.Attribute) and n.func.attr == 'join' and n.args and pf.nsrc(n.args[0]) == 'where_conditions']
+            joins = []
+            for sink_name in sink_names:
+                before = len(sinks)
+                c.run(fn.body, {}, sinks, sink_name)
+                if len(sinks) > before:
+                    joins += [j for j in all_joins if j.args[0].id == sink_name]  # type: ignore[attr-defined]
             if not sinks and not joins:
                 continue
             ctx.need(joins and all(pf.const_str(j.func.value).strip().upper() == 'AND' for j in joins), f'{rel}::{name}: where_conditions are not joined with AND')
             for closed, node in sinks:
                 ctx.check(closed, 'R6', f'{rel}::{name}::AND-term `{pf.nsrc(node)[:60]}`', 'this condition is ANDed into the scoped WHERE clause without parentheses although its top-level operator may be OR '
                           '(AND binds tighter): the batch / billing-project restriction becomes one alternative and rows of other batches are returned', m.path, node.lineno)
-            scope = any('batch_id = %s' in pf.nsrc(n) or 'billing_project_users' in pf.nsrc(n) for _, n in sinks)
+            # the scope conjunct: `<t>.batch_id = %s` (either operand order, possibly inside a parenthesised AND) or a condition on the membership table
+            scope = False
+            opaque = 0
+            for _, n in sinks:
+                t = pf.const_str(n)
+                if t is None:
+                    opaque += 1
+                    continue
+                try:
+                    prs = Parser(t)
+                    ex = prs.expr()
+                    if not prs.at_end():
+                        raise SqlParseError('trailing text')
+                except SqlParseError:
+                    opaque += 1
+                    continue
+                for cj in sf.conjuncts(ex):
+                    if cj.kind == 'bin' and cj.op == '=':
+                        for x, y in ((cj.left, cj.right), (cj.right, cj.left)):
+                            if x.kind == 'col' and x.parts[-1].lower().strip('`') == 'batch_id' and y.kind == 'param':
+                                scope = True
+                    if any(len(x.parts) >= 2 and x.parts[-2].lower().strip('`') == cf.TABLE for x in sf.cols_in(cj)):
+                        scope = True
+            # a violation only when every condition of the list was read and none of them scopes the listing
+            ctx.need(scope or not opaque, f'{rel}::{name}: no scope conjunct among the literal conditions, and {opaque} condition(s) are computed: cannot decide')
             ctx.check(scope, 'R6', f'{rel}::{name}::scope conjunct', 'the listing has no conjunct restricting it to the requested batch / the caller\'s billing projects', m.path, fn.lineno)
 
 
@@ -564,6 +1127,21 @@ def r8_membership(ctx: Ctx, m: pf.Module, rts) -> None:
         cons = f'{FE}::{fn.name}::revokes membership'
         ws = [w for w in mem.writes_in(m, fns) if w['verb'] in ('delete', 'update') or (w['verb'] == 'insert' and w['st'].on_dup)]
         if not ws:
+            # a violation only when everything the route runs was read: no statement whose text is not resolvable, and the database
+            # handle is not handed to a function of another module of the package (the write may have been moved there)
+            ids = {id(f) for f in fns}
+            opaque = [e for e in sf.embedded_in(m) if e.fn is not None and id(e.fn) in ids and (e.sql_text is None or (e.stmts() == [] and e.parse_error is not None))]
+            ctx.need(not opaque, f'{cons}: the statement at line {opaque[0].lineno if opaque else 0} in {opaque[0].qual if opaque else ""} is not readable; cannot decide whether it revokes the membership')
+            handles = {pf.nsrc(e.call.func.value) for e in sf.embedded_in(m) if e.fn is not None and id(e.fn) in ids and isinstance(e.call.func, ast.Attribute)} | {'db', 'tx'}
+            imports = m.imports()
+            for f in fns:
+                for c in pf.walk_shallow(f):
+                    if isinstance(c, ast.Call) and flow.resolve(f, c) is None and not (isinstance(c.func, ast.Attribute) and c.func.attr in sf.EXEC_METHODS):
+                        root = (pf.dotted(c.func) or '').split('.')[0]
+                        origin = imports.get(root, '')
+                        foreign = origin.startswith('.') or origin.startswith('batch') or (isinstance(c.func, ast.Attribute) and root in ('self', 'cls'))
+                        if foreign and any(isinstance(a, ast.Name) and a.id in handles for a in list(c.args) + [k.value for k in c.keywords]):
+                            raise AnalysisError(f'{cons}: the database handle is handed to `{pf.nsrc(c.func)}` (line {c.lineno}), which is not defined in this module; cannot decide whether it revokes the membership')
             ctx.bad('R8', cons, f'{route} does not reach a DELETE or UPDATE of {cf.TABLE}: the user it names stays a member and keeps passing billing_project_users_only', m.path, fn.lineno)
             continue
         okr = True
@@ -723,10 +1301,23 @@ def run(ctx: Ctx) -> None:
     ctx.rule('R8', 'billing-project membership has one meaning: removal revokes the row every reader counts (or every reader rejects the retained row)', 9)
     ctx.rule('R9', 'per-query batch filters: every statement a {batch_id} route runs over a batch-keyed table is tied to the request batch (bound parameter / join on the batch key)', 33)
     m = pf.load(FE)
+    ctx.unit('sql_texts_resolved_through_constants', sq.upgrade_embedded(m))
+    _decorator_aliases(m)
     rts = routes_of(m)
     ctx.unit('routes', sum(len(r) for _, r, _ in rts))
     ctx.need(sum(len(r) for _, r, _ in rts) >= 66, f'only {sum(len(r) for _, r, _ in rts)} route registrations found (66 confirmed by hand)')
-    oa = OwnerAnalysis(ctx, m)
+    handlers: Dict[int, str] = {}
+    handler_params: Dict[int, Dict[str, str]] = {}
+    for fn, regs, decos in rts:
+        lv0 = level_of(decos)[0]
+        ps = [a.arg for a in fn.args.posonlyargs + fn.args.args]
+        if lv0 in ('user', 'member', 'developer') and len(ps) >= 2:
+            handlers[id(fn)] = ps[1]
+        if lv0 == 'member' and len(ps) >= 3:
+            handler_params[id(fn)] = {ps[2]: 'batch_id'}
+    oa = OwnerAnalysis(ctx, m, handlers, handler_params)
+    # every rule is evaluated even when an earlier one declines: a violation established by a recognised shape is reported, otherwise the first decline stands
+    declined: List[AnalysisError] = []
     for fn, regs, decos in rts:
         lv, unknown = level_of(decos)
         ctx.need(not unknown, f'{FE}::{fn.name}: decorator(s) {unknown} not classified')
@@ -746,19 +1337,32 @@ def run(ctx: Ctx) -> None:
                 if lv == 'member':
                     ctx.ok('R2', cons, 'billing-project members only')
                 else:
-                    ok, why = oa.protected(fn)
-                    ctx.check(ok, 'R3', cons, f'{method} {path} is open to any authenticated user and reaches a database write without first establishing that the caller owns the batch: {why}',
-                              m.path, fn.lineno)
-                    # not membership-wrapped: the only callers the statement admits here are owners, so a normal response must
-                    # not be reachable without the owner filter either (a read-only handler has no write for R3 to look at)
-                    ctx.check(oa.always_filters(fn, 4), 'R2', cons, f'{method} {path} is open to any authenticated user (level `{lv}`, not billing_project_users_only) and some path through '
-                              f'{fn.name} reaches a normal response without an owner filter (SELECT ... WHERE user = <caller> AND id = <path batch id>, empty -> raise): a user who neither owns '
-                              'the batch nor belongs to its billing project is served', m.path, fn.lineno)
+                    try:
+                        ok, why = oa.protected(fn)
+                        served = oa.always_filters(fn, 4)
+                        if not (ok and served):
+                            # a statement that looks like an owner filter but could not be analysed: decline, do not alarm
+                            unk = oa.unknown_in([fn])
+                            if unk:
+                                raise AnalysisError(f'{cons}: {unk[0]}')
+                        inv = oa.invalid_in([fn])
+                        extra = (' [' + '; '.join(inv[:2]) + ']') if inv else ''
+                        ctx.check(ok, 'R3', cons, f'{method} {path} is open to any authenticated user and reaches a database write without first establishing that the caller owns the batch: {why}{extra}',
+                                  m.path, fn.lineno)
+                        # not membership-wrapped: the only callers the statement admits here are owners, so a normal response must
+                        # not be reachable without the owner filter either (a read-only handler has no write for R3 to look at)
+                        ctx.check(served, 'R2', cons, f'{method} {path} is open to any authenticated user (level `{lv}`, not billing_project_users_only) and some path through '
+                                  f'{fn.name} reaches a normal response without an owner filter (SELECT ... WHERE user = <caller> AND id = <path batch id>, empty -> raise): a user who neither owns '
+                                  f'the batch nor belongs to its billing project is served{extra}', m.path, fn.lineno)
+                    except AnalysisError as err:
+                        declined.append(err)
             else:
                 ctx.ok('R2', cons, f'level {lv}')
-    check_forwarding(ctx, m)
-    r5_wrappers(ctx, m)
-    r6_scoped_listings(ctx)
-    r7_path_components(ctx, m, rts)
-    r8_membership(ctx, m, rts)
-    r9_batch_scope(ctx, m, rts)
+    for step in (lambda: check_forwarding(ctx, m, oa), lambda: r5_wrappers(ctx, m), lambda: r6_scoped_listings(ctx), lambda: r7_path_components(ctx, m, rts),
+                 lambda: r8_membership(ctx, m, rts), lambda: r9_batch_scope(ctx, m, rts)):
+        try:
+            step()
+        except AnalysisError as err:
+            declined.append(err)
+    if declined:
+        raise declined[0]
